@@ -330,7 +330,9 @@ package q
 //@   oncall math.IsNaN#2 do nanR = result
 // (float64 is modelled as Real, which has no NaN; math.IsNaN is therefore an
 // abstract test and the clause below says it is consulted for both values)
-//@   ensures never-nan: implies(result2, !nanL && !nanR)
+//@   ghost nNaN int = 0
+//@   oncall math.IsNaN do nNaN = nNaN + 1
+//@   ensures never-nan: implies(result2, !nanL && !nanR && nNaN == 2)
 //@   ensures both-numbers: result2 == (okL && okR && !nanL && !nanR)
 //@   ensures values: implies(result2, result0 == vL && result1 == vR)
 //@   assigns nothing
